@@ -279,3 +279,23 @@ Theorem C16_composite_marginalisation : forall a0 a1 b0 b1 g0 g1 g2 l0 l1 (cv ka
      ("j_kin_draw_composite_m2l", [ka; num ((g0 + (g1 + (g2 + 0))) / 3); VBool false])].
 Proof. intros. split; [apply comp_marginalisation_pop | apply comp_marginalisation_m2l]; assumption. Qed.
 Print Assumptions C16_composite_marginalisation.
+
+(* BaseLensConfig.__init__ (real source; the lenstronomy base class records what it is given): each mean and each error of the imaging
+   posterior lands in its own slot (what draw_lens, C16_draw_lens_ranges, reads), the supplied light profile is stored, the scaling-axis
+   configuration receives THIS r_eff and slope, the engine is configured once with this anisotropy model / numerics / aperture / seeing *)
+Require Import C16.BaseCfg.
+Theorem C16_base_config_wiring : forall (zl zs tE sE gm sg re sre : R) (ap see numk light gpl : val) rg cu, gpl = vec [1; 2] ->
+  exists o log,
+  yields Gb 160 (CClass "BaseLensConfig" src_BaseLensConfig_init) None (base_args zl zs tE sE gm sg re sre ap see numk) [("kwargs_lens_light", light); ("gamma_pl_scaling", gpl)] rg cu o cu log
+  /\ fld o "_theta_E" = Some (num tE) /\ fld o "_theta_E_error" = Some (num sE)
+  /\ fld o "_gamma" = Some (num gm) /\ fld o "_gamma_error" = Some (num sg)
+  /\ fld o "_r_eff" = Some (num re) /\ fld o "_r_eff_error" = Some (num sre)
+  /\ fld o "_z_lens" = Some (num zl) /\ fld o "_z_source" = Some (num zs)
+  /\ fld o "_kwargs_lens_light" = Some light
+  /\ fld o "_anisotropy_model" = Some (VStr "OM")
+  /\ map fst (rev log) = ["TDCosmography.__init__"; "kinematics_modeling_settings"]
+  /\ (exists rest, nth 1 (rev log) ("", []) = ("kinematics_modeling_settings", VStr "OM" :: numk :: rest))
+  /\ (exists m rest, nth 0 (rev log) ("", []) = ("TDCosmography.__init__", num zl :: num zs :: m :: rest)
+        /\ In (VTuple [VStr "kwargs_seeing"; see]) rest /\ In (VTuple [VStr "kwargs_aperture"; ap]) rest).
+Proof. intros. apply base_config_wiring. assumption. Qed.
+Print Assumptions C16_base_config_wiring.
